@@ -227,7 +227,11 @@ func main() {
 	}
 	for _, h := range hs {
 		base := &State{heap: map[int]*Obj{}, decided: map[int]bool{}, eqc: map[int]*Term{}, globals: map[*ssa.Global]int{}, inited: map[*ssa.Package]bool{}, counters: map[string]int{}, onceDone: map[string]bool{}, ghost: map[string]Value{}, unwind: e.cfg.Unwind}
+		nerr0 := len(sv.errs)
 		r := e.RunHarness(h, base)
+		if len(sv.errs) > nerr0 {
+			r.Aborts = append(r.Aborts, "solver reported an error during this harness: "+sv.errs[nerr0])
+		}
 		r.finalize()
 		output.Harnesses = append(output.Harnesses, r)
 		if *verbose >= 1 {
